@@ -74,6 +74,44 @@ CLAIMED.update({
                 tech="TLA+ decision table enumerated by TLC, every case replayed through the public start()"),
 })
 
+CLAIMED.update({
+    "C04": dict(cat="fault_enumeration", sec="5/C04",
+                text="For the last commit, reorg and finalise of TLC-generated histories every persistent write (RocksDB put/delete/"
+                     "flush, hook H2) is a crash point: the history is replayed with the fail-point armed before that write, the "
+                     "instance is dropped and reopened, an admissible reorg to a durable height is issued and three more blocks are "
+                     "appended; TraceRef.tla (TrCrash/TrReopen/TrRecover) states what the state must be from the recovering reorg on.",
+                note="RocksDB single-operation atomicity and WAL durability across process death; the crash is injected as an error "
+                     "at the armed write followed by dropping the instance; quick tier samples at most 60 points per operation",
+                tech="fault enumeration over every persistent write + TLA+ trace validation of the recovery"),
+    "C10": dict(cat="model_checking", sec="5/C10", note=HIST_NOTE, tech=HIST_TECH,
+                text="All read actions of the reference machine leave every variable unchanged; state-mutating Cell programs "
+                     "(storage writes, creations, logs, self-destruct, revert, invalid opcode) run through eth_call / eth_callMany "
+                     "(with carry-over) / eth_estimateGas(Many) at block boundaries and the full projection after each read must "
+                     "equal the unchanged reference state; results must equal the scratch evaluation."),
+    "C16": dict(cat="exploration", sec="5/C16",
+                text="Gas.tla: threshold machine + observation-only monitor (TLC: monitor sound, estimate sufficient); TraceGas.tla runs "
+                     "the monitor over real executions: estimate, then the same call as a transaction at lengths {0,1,L-1,L,L+1,10L,huge} "
+                     "from the same committed state; rejects when no threshold explains all observations, when gas used exceeds the "
+                     "allowance, when a failed transaction changed state, or when the output differs from eth_call.",
+                note="programs from a seeded generator over Cell ops; nested calls that ignore callee failure excluded",
+                tech="TLA+ monitor model-checked for soundness, then run over recorded executions (trace validation)"),
+    "C17": dict(cat="model_checking", sec="5/C17", note=HIST_NOTE, tech=HIST_TECH,
+                text="eth_call results are compared with the reference evaluation, and every transaction executed right after an "
+                     "eth_call with the same sender, target and data must have the predicted success flag and return data "
+                     "(trace variable pred); simulated creations must return the runtime code that the deployment installs."),
+    "C18": dict(cat="model_checking", sec="5/C18", note=HIST_NOTE,
+                text="LogFilters.tla enumerates every filter shape (address x positional topics with wildcard/single/alternatives x "
+                     "range forms); each is asked of the real engine over chains that are never committed, committed at random "
+                     "points and fully committed, and TraceRef.TrGetLogs requires soundness, completeness, no duplicates, chain order "
+                     "and refusal of ranges wider than 6 blocks.",
+                tech="TLC-enumerated filter space, reference answer computed in TLA+ and compared by trace validation"),
+    "C19": dict(cat="model_checking", sec="5/C19", note=HIST_NOTE, tech=HIST_TECH,
+                text="The Probe contract records NUMBER, TIMESTAMP, PREVRANDAO, CHAINID, BASEFEE, GASPRICE, COINBASE, CALLER, ORIGIN, "
+                     "BLOCKHASH(n-1,-2,-3,-256,-257) and the answer of the current-txid helper; Brc20Ref.ProbeWrite is the oracle "
+                     "for inscription calls, signed and parked-then-drained transactions across reorgs/restarts, on regtest (Prague) "
+                     "and signet at low heights (Cancun: helper absent)."),
+})
+
 NOT_YET = {}
 
 NA = {
